@@ -39,10 +39,14 @@ func (b *Buffer) Put(key, value []byte) {
 	b.mu.Lock()
 	defer b.mu.Unlock()
 
-	// Store in the operations map - skiplist handles defensive copying
-	b.operations[string(key)] = &Operation{
-		Key:      key,
-		Value:    value,
+	// Capture key and value at call time: the caller may reuse its buffers
+	// before the transaction commits. The value copy is never nil (nil marks
+	// a deletion).
+	keyCopy := append([]byte{}, key...)
+	valueCopy := append([]byte{}, value...)
+	b.operations[string(keyCopy)] = &Operation{
+		Key:      keyCopy,
+		Value:    valueCopy,
 		IsDelete: false,
 	}
 }
@@ -52,9 +56,10 @@ func (b *Buffer) Delete(key []byte) {
 	b.mu.Lock()
 	defer b.mu.Unlock()
 
-	// Store in the operations map - skiplist handles defensive copying
-	b.operations[string(key)] = &Operation{
-		Key:      key,
+	// Capture the key at call time: the caller may reuse its buffer
+	keyCopy := append([]byte{}, key...)
+	b.operations[string(keyCopy)] = &Operation{
+		Key:      keyCopy,
 		Value:    nil,
 		IsDelete: true,
 	}
